@@ -10,6 +10,8 @@ for c in "$@"; do
   if echo "$all" | grep -q "^Traceback"; then echo "[$c] THE CHECK ITSELF CRASHED"; echo "$all" | tail -3; continue; fi
   if echo "$all" | grep -qE "what: (source gate|check infrastructure error)"; then echo "[$c] INVALID: the machinery is broken in this copy, nothing it reports counts"; echo "$all" | grep "what:" | head -2 | cut -c1-300; continue; fi
   out=$(echo "$all" | grep -E "VIOLATION|what:" | head -4)
-  if echo "$out" | grep -q VIOLATION; then echo "[$c] DETECTED"; echo "$out" | cut -c1-260 | head -3; else echo "[$c] missed"; fi
+  if echo "$all" | grep "^VIOLATION" | grep -qv "no-failing-input-found"; then echo "[$c] DETECTED with a failing input"; echo "$out" | cut -c1-260 | head -3
+  elif echo "$out" | grep -q VIOLATION; then echo "[$c] DETECTED through a broken obligation only (no failing input: the generators / oracles of this check do not reach the change)"; echo "$out" | cut -c1-260 | head -3
+  else echo "[$c] missed"; fi
 done
 git -C $R checkout -- .
